@@ -51,3 +51,36 @@ void *skinny_calloc(size_t size, void **base_ptr)
     if (ptr) { *base_ptr = ptr; ptr = (void *)((((uintptr_t)ptr) + 31) & ~((uintptr_t)31)); }
     return ptr;
 }
+
+/* R3 (multi-loop wipes): a word loop plus a byte tail; the first forgets bytes when size % 8 >= 4, the second is right
+   and must be accepted */
+typedef struct { const void *vtable; void *ctx; } FxF_t;
+typedef struct { const void *vtable; void *ctx; } FxG_t;
+static void fx_word_zero_bad(void *ptr, size_t size)
+{
+    uint8_t volatile *p = (uint8_t volatile *)ptr;
+    if ((((uintptr_t)ptr) & 7) == 0) {
+        uint64_t volatile *w = (uint64_t volatile *)ptr;
+        size_t words = size / 8;
+        while (words > 0) { *w++ = 0; --words; }
+        p = (uint8_t volatile *)w;
+        size &= 3;
+    }
+    while (size > 0) { *p++ = 0; --size; }
+}
+static void fx_word_zero_good(void *ptr, size_t size)
+{
+    uint8_t volatile *p = (uint8_t volatile *)ptr;
+    if ((((uintptr_t)ptr) & 7) == 0) {
+        uint64_t volatile *w = (uint64_t volatile *)ptr;
+        size_t words = size >> 3;
+        while (words > 0) { *w++ = 0; --words; }
+        p = (uint8_t volatile *)w;
+        size &= 7;
+    }
+    while (size > 0) { *p++ = 0; --size; }
+}
+int fx_f_init(FxF_t *o) { FxCtx_t *c = calloc(1, sizeof(FxCtx_t)); o->ctx = c; return c != 0; }
+void fx_f_cleanup(FxF_t *o) { if (o->ctx) { fx_word_zero_bad(o->ctx, sizeof(FxCtx_t)); free(o->ctx); o->ctx = 0; } }
+int fx_g_init(FxG_t *o) { FxCtx_t *c = calloc(1, sizeof(FxCtx_t)); o->ctx = c; return c != 0; }
+void fx_g_cleanup(FxG_t *o) { if (o->ctx) { fx_word_zero_good(o->ctx, sizeof(FxCtx_t)); free(o->ctx); o->ctx = 0; } }
